@@ -4,6 +4,9 @@ From Qib Require Export Fermi.FermiTerms Base.Inst Pauli.PauliCheck.
 From Coq Require Import QArith.
 
 Definition QQ := (Q * Q)%type.
+(** short literals for the generated case files *)
+Definition qz (a b : Z) : QI := (inject_Z a, inject_Z b).
+Definition q0 : QI := qz 0 0.
 Definition qmat_eqb (a b : list (list QQ)) : bool := list_eqb (list_eqb qi_eqb) a b.
 
 (** a term as the harness writes it: operator pattern and the flattened coefficient array *)
